@@ -307,7 +307,8 @@ pub fn run(_tier: Tier, shard: Shard, rep: &mut Report) {
         advancing on a found entry; missing roots stay missing. Non-trivial = a read-only level holds a copy / a degenerate root \
         or unusual name is involved. The lookup/touch cells are repeated with every planted copy stamped one day ahead of the local \
         clock (entries written by a host whose clock runs ahead), and with the probes (open/stat) of each read-only copy answered \
-        ESTALE, EIO, EACCES or ENOENT."
+        ESTALE, EIO, EACCES or ENOENT; and with every periodic trigger scripted to fire during the operation while two-hour-old debris \
+        lies in each level's .kismet_temp."
         .into();
     rep.assumptions = vec![
         "operation histories on stacked front-ends are additionally monitored inside the C11 exploration".into(),
@@ -344,6 +345,26 @@ pub fn run(_tier: Tier, shard: Shard, rep: &mut Report) {
         }
         rep.count("future_dated_cells", 1);
     }
+    // the same lookups with every periodic trigger about to fire and stale debris lying in each level's
+    // .kismet_temp: whatever housekeeping a lookup may set off, it never reaches a read-only root
+    for cell in all.iter().filter(|c| matches!(c.op, MOp::Get | MOp::Touch | MOp::Ensure | MOp::Gou(_)) && c.checker == 0 && c.readers.len() <= 2) {
+        no += 1;
+        if !shard.mine(no) {
+            continue;
+        }
+        FORCE_MAINTENANCE.with(|f| f.set(true));
+        STALE_DEBRIS.with(|f| f.set(true));
+        let before = rep.violations.len();
+        record(cell, rep);
+        FORCE_MAINTENANCE.with(|f| f.set(false));
+        STALE_DEBRIS.with(|f| f.set(false));
+        for v in rep.violations.iter_mut().skip(before) {
+            if let Some(o) = v.case.as_object_mut() {
+                o.insert("trigger_fires_with_debris".into(), json!(true));
+            }
+        }
+        rep.count("trigger_firing_cells", 1);
+    }
     // lookups whose probe of a read-only copy fails (a stale NFS handle, an I/O error, no permission)
     for cell in all.iter().filter(|c| matches!(c.op, MOp::Get | MOp::Touch | MOp::Ensure | MOp::Gou(_)) && c.checker == 0 && c.readers.len() <= 2) {
         no += 1;
@@ -373,8 +394,13 @@ pub fn replay(case: &Value, rep: &mut Report) {
         record_with_faults(&Cell::from_json(case), rep);
     } else {
         let future = case.get("future_dated").and_then(|v| v.as_bool()).unwrap_or(false);
+        let firing = case.get("trigger_fires_with_debris").and_then(|v| v.as_bool()).unwrap_or(false);
         FUTURE_DATED.with(|f| f.set(future));
+        FORCE_MAINTENANCE.with(|f| f.set(firing));
+        STALE_DEBRIS.with(|f| f.set(firing));
         record(&Cell::from_json(case), rep);
         FUTURE_DATED.with(|f| f.set(false));
+        FORCE_MAINTENANCE.with(|f| f.set(false));
+        STALE_DEBRIS.with(|f| f.set(false));
     }
 }
